@@ -87,6 +87,8 @@ pub enum Step {
     /// write config variant i to the config file (RELOAD via Admin step follows)
     WriteConfig(usize),
     Shutdown,
+    /// deliver a unix signal to the real main loop (main_loop mode): "INT", "TERM", "HUP"
+    Signal(&'static str),
     Cancel(CancelKey),
     /// record a snapshot of pooler-side state (pool_state, stats registries, ban lists)
     Probe,
@@ -111,6 +113,7 @@ impl Step {
             Step::ReloadSighup(i) => format!("reload-sighup(v{})", i),
             Step::WriteConfig(i) => format!("write-config(v{})", i),
             Step::Shutdown => "shutdown".into(),
+            Step::Signal(s) => format!("signal({})", s),
             Step::Cancel(k) => format!("cancel({:?})", k),
             Step::Probe => "probe".into(),
         }
@@ -136,6 +139,9 @@ pub struct Opts {
     pub skip_pool_init: bool,
     /// record a pooler-state probe at every quiescent point
     pub probe_each: bool,
+    /// run the accept / signal / drain loop extracted from src/main.rs; client
+    /// connections are handed to its listener and signals to its signal streams
+    pub main_loop: bool,
 }
 
 impl Default for Opts {
@@ -149,6 +155,7 @@ impl Default for Opts {
             trace: false,
             skip_pool_init: false,
             probe_each: false,
+            main_loop: false,
         }
     }
 }
@@ -259,6 +266,16 @@ pub struct World {
     pub blocked: bool,
     pub pending_async: Arc<AtomicBool>,
     pub tasks_alive: Arc<Mutex<Vec<(usize, usize, bool)>>>,
+    pub main: Option<MainCtl>,
+}
+
+/// Handles on the extracted main loop.
+pub struct MainCtl {
+    pub accept_tx: mpsc::UnboundedSender<(pgcat::verif::net::TcpStream, std::net::SocketAddr)>,
+    pub int_tx: mpsc::UnboundedSender<()>,
+    pub term_tx: mpsc::UnboundedSender<()>,
+    pub hup_tx: mpsc::UnboundedSender<()>,
+    pub exited: Arc<AtomicBool>,
 }
 
 pub async fn quiesce() {
@@ -287,6 +304,13 @@ impl World {
             c.conn_serial
         };
         let stream = pgcat::verif::net::TcpStream::from_duplex(pooler_end, peer_addr(actor * 16 + serial));
+        let stream = if let Some(m) = &self.main {
+            // the real accept loop spawns the client task
+            let _ = m.accept_tx.send((stream, peer_addr(actor * 16 + serial)));
+            None
+        } else {
+            Some(stream)
+        };
         let csm = self.csm.clone();
         let shutdown_rx = self.shutdown_tx.subscribe();
         let drain = self.drain_tx.clone();
@@ -294,6 +318,7 @@ impl World {
         let net = self.net.clone();
         let alive = self.tasks_alive.clone();
         alive.lock().push((actor, serial, true));
+        if let Some(stream) = stream {
         let handle = tokio::spawn(async move {
             pgcat::client::client_entrypoint(stream, csm, shutdown_rx, drain, admin_only, None, false).await
         });
@@ -323,6 +348,7 @@ impl World {
                 }
             }
         });
+        }
 
         let (rd, wr) = tokio::io::split(client_end);
         let buf = Arc::new(Mutex::new(ClientBuf::default()));
@@ -691,6 +717,15 @@ impl World {
                 self.admin_only = true;
                 let _ = self.shutdown_tx.send(());
             }
+            Step::Signal(sig) => {
+                let m = self.main.as_ref().expect("Signal step needs opts.main_loop");
+                let _ = match sig {
+                    "INT" => m.int_tx.send(()),
+                    "TERM" => m.term_tx.send(()),
+                    "HUP" => m.hup_tx.send(()),
+                    _ => panic!("unknown signal"),
+                };
+            }
             Step::Cancel(k) => {
                 let key = match k {
                     CancelKey::OfClient(c) => self.clients[c].buf.lock().key,
@@ -811,6 +846,13 @@ impl World {
         let mut last: Option<(u8, usize)> = None; // (0 delivery conn | 1 actor, id)
         loop {
             quiesce().await;
+            if let Some(m) = &self.main {
+                if m.exited.load(Ordering::Relaxed) {
+                    // the process is gone: nothing after this point is the pooler's behaviour
+                    self.log(Rec::Note { msg: "PROCESS-EXITED".into() });
+                    break;
+                }
+            }
             self.state_hashes.push(self.state_hash());
             if self.scenario.opts.probe_each {
                 self.probe();
@@ -1089,6 +1131,45 @@ pub fn run_scenario(sc: &Scenario, prefix: &[u32], expect_n: &[u32], config_path
                 }
             });
         }
+        let main = if sc.opts.main_loop && init_error.is_none() {
+            let (accept_tx, accept_rx) = mpsc::unbounded_channel();
+            let (int_tx, int_rx) = mpsc::unbounded_channel();
+            let (term_tx, term_rx) = mpsc::unbounded_channel();
+            let (hup_tx, hup_rx) = mpsc::unbounded_channel();
+            let exited = Arc::new(AtomicBool::new(false));
+            {
+                // the admin SHUTDOWN command sends SIGINT to the pooler's own process
+                let int_tx = int_tx.clone();
+                let net = net.clone();
+                pgcat::verif::signal::set_handler(Box::new(move |sig| {
+                    net.lock().push(Rec::Note { msg: format!("SIGNAL-RAISED {:?} by the pooler itself", sig) });
+                    match sig {
+                        pgcat::verif::signal::Signal::SIGINT => int_tx.send(()).is_ok(),
+                        _ => false,
+                    }
+                }));
+            }
+            let exited2 = exited.clone();
+            let net2 = net.clone();
+            let csm2 = csm.clone();
+            tokio::spawn(async move {
+                use crate::mainloop::{extracted_main_loop, Listener, SignalRx};
+                extracted_main_loop(
+                    Listener { rx: accept_rx },
+                    SignalRx { rx: hup_rx },
+                    SignalRx { rx: int_rx },
+                    SignalRx { rx: term_rx },
+                    csm2,
+                    pgcat::config::get_config(),
+                )
+                .await;
+                net2.lock().push(Rec::Note { msg: "MAIN-LOOP-EXIT".into() });
+                exited2.store(true, Ordering::Relaxed);
+            });
+            Some(MainCtl { accept_tx, int_tx, term_tx, hup_tx, exited })
+        } else {
+            None
+        };
         let nact = sc.actors.len();
         let mut w = World {
             net: net.clone(),
@@ -1107,6 +1188,7 @@ pub fn run_scenario(sc: &Scenario, prefix: &[u32], expect_n: &[u32], config_path
             blocked: false,
             pending_async: Arc::new(AtomicBool::new(false)),
             tasks_alive: Arc::new(Mutex::new(vec![])),
+            main,
         };
         let _ = w.client_index(0);
         if let Some(e) = &init_error {
